@@ -564,14 +564,16 @@ func (s *scope) createScoped(key instanceKey, descriptor *Descriptor) (any, erro
 
 		// Another goroutine is constructing it: wait, then take what it stored
 		<-call.done
+
+		// The scope was closed while the instance was being built: the instance has been disposed with it
+		if atomic.LoadInt32(&s.disposed) != 0 {
+			return nil, ErrScopeDisposed
+		}
 		if instance, ok := s.getInstance(key); ok {
 			return instance, nil
 		}
 		if call.err != nil {
 			return nil, call.err
-		}
-		if atomic.LoadInt32(&s.disposed) != 0 {
-			return nil, ErrScopeDisposed
 		}
 		// Nothing was stored under this identity (an output the constructor left nil): proceed like a first attempt
 	}
